@@ -10,7 +10,7 @@ CHECKS = {
     # id: (category, technique, level text, level note, design ref)
     "C12": (
         "exploration",
-        "runtime contract (icontract post-condition + exception observer) on the real find_overlaps vs brute-force scan; exhaustive small space + random + in-situ remap lookups",
+        "runtime contract (icontract post-condition + exception observer) on the real find_overlaps vs brute-force scan; exhaustive small space + random + in-situ remap lookups; stateful classes (late and failed adds, renamed scaffolds, rows replaced in place, one-shot iterables, derived assemblies)",
         "Every lookup the workloads make (exhaustive sub-space of <=4-row scaffolds x all intervals, random large scaffolds, and all lookups made by the remap pipeline on generated maps) is compared with a linear scan; holds on the executions enumerated in the evidence, nothing more.",
         "Trusts the 25-line reference scan and the plain-data conversion; domain 1<=a<=b on non-empty scaffolds.",
         "3-C12",
@@ -31,14 +31,14 @@ CHECKS = {
     ),
     "C05": (
         "exploration",
-        "independent line-by-line AGP/TPF parser+formatter as executable model: round-trip laws on generated assemblies, byte equality with the reference formatter, AGP->TPF->AGP, and line accounting on line-level corruptions (same rows as the model or an error); asm-format CLI slice",
+        "independent line-by-line AGP/TPF parser+formatter as executable model: round-trip laws on generated assemblies, byte equality with the reference formatter, AGP->TPF->AGP, and line accounting on line-level corruptions (same rows as the model or an error); asm-format CLI slice (CRLF inputs compared as bytes of an output file); every writer call must leave the assembly as it was",
         "Every generated assembly goes through parse(format(A))==A, format(parse(T))==T, the gap-type table and AGP->TPF->AGP; each corrupted canonical text must be rejected when the model calls a line invalid and otherwise yield exactly the model's rows; the CLI is driven with files, stdin, -i/-f overrides and CRLF input.",
         "Name/tag/header domain of DESIGN 5.2; corruptions use clearly non-numeric tokens.",
         "3-C05",
     ),
     "C06": (
         "exploration",
-        "post-condition on the real format_agp at every call site (tee on the file argument) validated by an independent AGP validator; workloads: all remap outputs, FASTA .agp caches, asm-format, pretext-to-asm AGP and FASTA+AGP outputs with small stream buffers (object length = record length); fault-injection leg (FASTA writer fails part-way: any AGP left must match the FASTA beside it); FASTA run into a directory holding the AGP files of an earlier AGP run",
+        "post-condition on the real format_agp at every call site (tee on the file argument) validated by an independent AGP validator; workloads: all remap outputs, FASTA .agp caches, asm-format, pretext-to-asm AGP and FASTA+AGP outputs with small stream buffers (object length = record length); fault-injection leg (FASTA writer fails part-way: any AGP left must match the FASTA beside it); FASTA run into a directory holding the AGP files of an earlier AGP run; second auto_load of one FastaIndex object after the FASTA changed",
         "Every AGP text that any workload causes the tools to write is validated for tiling from 1, part numbers, spans, U/yes/gap type and last end = scaffold length (and FASTA record length where a FASTA is written with it).",
         "Gap length >= 1; assemblies with duplicate object names are left to C10.",
         "3-C06",
@@ -52,35 +52,35 @@ CHECKS = {
     ),
     "C08": (
         "exploration",
-        "null-map workload (whole, uncut, unpainted or all-painted scaffolds at every texel size with Pretext's end rounding, sub-texel scaffolds present/absent, inputs with leading/trailing gaps and haplotype-prefixed names) with identity + zero-statistics oracle; every 25th map also through the pretext-to-asm CLI (one assembly file, contents, zero statistics in log and info YAML)",
+        "null-map workload (whole, uncut, unpainted or all-painted scaffolds at every texel size with Pretext's end rounding, sub-texel scaffolds present/absent, inputs with leading/trailing gaps and haplotype-prefixed names) with identity + zero-statistics oracle; every 25th map also through the pretext-to-asm CLI (one assembly file, contents, zero statistics in log and info YAML); FASTA-input leg (LF/CRLF) run with cold and warm index cache; input text in other legal spellings (N-type gaps, TPF method column, whole-number texel header)",
         "Each generated null map must give exactly one (primary) assembly with the input scaffolds by name and row-for-row, zero cuts/breaks/joins; painted variant: same row lists, names prefix+rank by non-increasing sequence length.",
         "Last-contig precondition applied as > ceil(t)+1 bp; order compared by name; scaffold-terminal input gaps are not expected in the output (C07).",
         "3-C08",
     ),
     "C09": (
         "exploration",
-        "designed-tagging workload (intent kept beside each case) + placement-map oracle: the assembly holding the core bases of every piece must be the designed destination; absent sequence follows the Target / haplotype-by-name rules; CLI slice checks the file-name <-> assembly mapping on written files",
+        "designed-tagging workload (intent kept beside each case) + placement-map oracle: the assembly holding the core bases of every piece must be the designed destination; absent sequence follows the Target / haplotype-by-name rules; CLI slice checks the file-name <-> assembly mapping on written files; reused-object leg (second export from the same indexed input, Pretext scaffolds tagged after their tags were listed) against fresh objects",
         "For every piece of every designed tagging (single haplotype, Target mode, two haplotypes, Primary) whose core holds contig bases, the destination observed in the real outputs is compared with the design; no exception is tolerated on these consistent designs.",
         "Only consistent taggings are generated; destination judged on core bases as in C02.",
         "3-C09",
     ),
     "C10": (
         "exploration",
-        "output self-consistency monitor (unique names, numbering without holes, non-increasing sizes, write order, chromosome.list / chr_report CSV lines from the real AssemblyStats) + designed names (name tags, unlocs under their chromosome, homologues sharing a number); the result asked for a second time from the same object; CLI leg: a chromosome list file with the right lines beside every curated assembly file that has chromosomes (monitor on write_chr_csv_files)",
+        "output self-consistency monitor (unique names, numbering without holes, non-increasing sizes, write order, chromosome.list / chr_report CSV lines from the real AssemblyStats) + designed names (name tags, unlocs under their chromosome, homologues sharing a number); the result asked for a second time from the same object; CLI leg: a chromosome list file with the right lines beside every curated assembly file that has chromosomes (monitor on write_chr_csv_files), also when re-running over longer files of the same names",
         "Each completed designed tagging is checked for the naming and ordering rules of the statement; a separate 'vanishing chromosome' shard reproduces known finding D9 and matches only that mechanism signature there.",
         "Input names outside the generated namespaces; haplotig order under either length reading; hole checks only when every unloc/haplotig piece holds contig bases.",
         "3-C10",
     ),
     "C11": (
         "exploration",
-        "independent junction counter over contig ends vs AssemblyStats; metamorphic recomputation of the real statistics with whole scaffolds reversed; CLI slice: log line and info.yaml vs counts recomputed from the written files, with the report of an earlier run in place beforehand and contig-level assemblies under unedited maps",
+        "independent junction counter over contig ends vs AssemblyStats; metamorphic recomputation of the real statistics with whole scaffolds reversed; CLI slice: log line and info.yaml vs counts recomputed from the written files, with the report of an earlier run in place beforehand and contig-level assemblies under unedited maps; prefix assigned again between remap and fuse",
         "On every completed run reported cuts/breaks/joins are compared with an independent count; the real make_stats is re-run with random whole scaffolds of input and/or output reversed and must not change; the CLI's log line, yaml totals and haplotig-removal count are compared with the files it wrote.",
         "Strands +1/-1 only.",
         "3-C11",
     ),
     "C03": (
         "exploration",
-        "post-condition on the real FastaStream.write_scaffold (tee captures the bytes of each call) vs an in-memory FASTA model; G-fasta x G-sub x buffer x line-length workload; CLI slice comparing each written .fa/.agp pair with the input FASTA (one- and two-haplotype maps, sub-texel pieces set aside as haplotigs)",
+        "post-condition on the real FastaStream.write_scaffold (tee captures the bytes of each call) vs an in-memory FASTA model; G-fasta x G-sub x buffer x line-length workload; CLI slice comparing each written .fa/.agp pair with the input FASTA (one- and two-haplotype maps, sub-texel pieces set aside as haplotigs, re-runs over longer files of the same names)",
         "Every record written by every write_scaffold call of the workloads (direct streams and pretext-to-asm runs with FASTA in/out) is compared byte-for-byte with the rows applied to the input records by an independent model; record order, uniqueness and AGP object lengths are checked on the CLI pairs.",
         "Input FASTA in the C04 domain; '?' rows stream forward; trusts vf.ref.fasta_ref and vf.ref.agp_ref.",
         "3-C03",
@@ -94,28 +94,28 @@ CHECKS = {
     ),
     "C13": (
         "exploration",
-        "differential observer over buffer sizes (index, derived rows, streamed bytes must coincide) + I/O-size monitor (read sizes on the FASTA handle, chunk sizes of the real chunk iterators) + tracemalloc peak bound on sequences/fragments/gaps 300-400 buffers long",
+        "differential observer over buffer sizes (index, derived rows, streamed bytes must coincide) + I/O-size monitor (read sizes on the FASTA handle, chunk sizes of the real chunk iterators) + tracemalloc peak bound on sequences/fragments/gaps 300-400 buffers long (also behind short records of another line width)",
         "For every generated (file, assembly) pair the results under 10-15 buffer sizes from 1 up are compared; every read and chunk observed is <= buffer; traced peak memory while indexing/streaming 300-400-buffer sequences stays below 6*buffer+64KiB (a whole-sequence accumulation would be >= 300*buffer).",
         "'At no time' is restated as measured sizes and traced peak on the executions run; memory outside the Python allocator is not seen (no native code in the repo).",
         "3-C13",
     ),
     "C14": (
         "exploration",
-        "icontract post-conditions on the real Scaffold.reverse, reverse_complement and OverlapResult.to_scaffold (fire in every workload), exhaustive 256-byte table, streaming law stream(S.reverse()) == revcomp(stream(S)) over G-fasta x G-sub x buffers, in-situ reversals of the remap pipeline incl. unknown-orientation baits",
+        "icontract post-conditions on the real Scaffold.reverse, reverse_complement and OverlapResult.to_scaffold (fire in every workload), exhaustive 256-byte table, streaming law stream(S.reverse()) == revcomp(stream(S)) over G-fasta x G-sub x buffers, in-situ reversals of the remap pipeline incl. unknown-orientation baits; both orientations in one write_assembly, another gap character from the same index",
         "Every reversal / reverse-complement executed by the workloads is compared with an independent row-mirror and an IUPAC table derived from base sets; the stream law is decided on real streamed bytes.",
         "For '?' rows only the involution and mirrored-position laws are demanded (DESIGN 3-C14).",
         "3-C14",
     ),
     "C15": (
         "fault_enumeration",
-        "process-level controlled scheduler + crash injector over real forked auto_load processes (yield points: sys.monitoring LINE events of the cache functions, raw FileIO write/read/close = flush boundaries, os.stat/replace/unlink); history driver on three mtime clocks (logical 10 s steps, sub-second steps, FASTA mtimes ahead of the wall clock) incl. objects kept alive across edits and loaded a second time; crash scenario on a FASTA just written by pretext-to-asm with its side files; in every other crash shard all processes report one process id, and after a kill that leaves a temporary file the FASTA is replaced by a much shorter one and loaded twice; oracle = reference index of the FASTA's current bytes or a loud failure",
+        "process-level controlled scheduler + crash injector over real forked auto_load processes (yield points: sys.monitoring LINE events of the cache functions, raw FileIO write/read/close = flush boundaries, os.stat/replace/unlink); history driver on four mtime clocks (logical 10 s steps, sub-second steps, FASTA mtimes ahead of the wall clock, 10-minute steps across the end of daylight saving with TZ set) incl. objects kept alive across edits and loaded a second time; crash scenario on a FASTA just written by pretext-to-asm with its side files; in every other crash shard all processes report one process id, and after a kill that leaves a temporary file the FASTA is replaced by a much shorter one and loaded twice; oracle = reference index of the FASTA's current bytes or a loud failure",
         "Crash points: the indexing process is killed at EVERY yield point of each scenario (cold, stale, equal mtime, .fai or .agp deleted, fresh; 2-record and 800-record files with interior flush boundaries) and a fresh load (and a second one after recovery) is judged per distinct on-disk state. Interleavings: every preemption position for 2 processes/1 preemption, 3 processes/1 preemption, 3 processes/2 preemptions at file operations (quick) plus 2 processes/2 preemptions (thorough) and random-priority schedules. Histories: all sequences up to length 3 (quick) / 4 (thorough) over the property's alphabet plus random ones to length 10, also with the FASTA reached through a symbolic link.",
         "Process crashes (completed writes persist, user-space buffers lost, no torn write); FASTA not edited while being indexed; bounds as stated; scheduling granularity = statements of tola/fasta/index.py cache functions + raw file operations.",
         "3-C15",
     ),
     "C16": (
         "exploration",
-        "audit hook (sys.addaudithook: open flags / rename / remove / truncate on pre-existing output paths) around the real CLI in process + post-run bytes/inode/mtime comparison, exit status and error text; hostile legs (symlinked / dangling / empty pre-existing paths, a competitor creating the file just before the open, injected from the audit hook); strace on the console entry point as independent observer; --clobber leg vs reference run",
+        "audit hook (sys.addaudithook: open flags / rename / remove / truncate on pre-existing output paths) around the real CLI in process + post-run bytes/inode/mtime comparison, exit status and error text; hostile legs (symlinked / dangling / empty pre-existing paths, a competitor creating the file just before the open, injected from the audit hook); strace on the console entry point as independent observer; --clobber leg vs reference run; two invocations in one process under different output names; logging already configured by the caller",
         "For each generated case the output file set is fixed by a reference run; every non-empty subset (<=6 files) or singletons+full+sampled subsets is pre-created with sentinels and the CLI run with --no-clobber under the monitors, over FASTA/AGP/TPF output, log on/off, single- and multi-assembly designs.",
         "The FASTA index cache is not an output file; 'completely rewritten' = byte equality with the reference run.",
         "3-C16",
@@ -129,21 +129,21 @@ CHECKS = {
     ),
     "C18": (
         "exploration",
-        "shadow-state monitor on every OverlapResult born from a real lookup; invariant re-derived from rows vs source scaffold after each mutating method (icontract post-conditions + snapshots for the prediction law); direct random op sequences + in-situ remap",
+        "shadow-state monitor on every OverlapResult born from a real lookup; invariant re-derived from rows vs source scaffold after each mutating method (icontract post-conditions + snapshots for the prediction law); direct random op sequences + in-situ remap; results born from an edited scaffold indexed again",
         "After every discard/trim operation on every tracked overlap result (random operation sequences and the sequences the remap pipeline really applies) span, contiguity, terminal-gap and derived-figure invariants are recomputed independently; holds on the observed states only.",
         "Objects are tracked only when born from find_overlaps; strands +1/-1; a sequence ends at the first raising operation.",
         "3-C18",
     ),
     "C19": (
         "exploration",
-        "icontract post-conditions on Fragment.overlaps/overlap_length/abuts/gap_between vs interval arithmetic (exhaustive [0,7]^2 + random to 1e12); O(n^2) reference vs find_overlapping_fragments and vs parsed stderr of asm-format --qc-overlaps",
+        "icontract post-conditions on Fragment.overlaps/overlap_length/abuts/gap_between vs interval arithmetic (exhaustive [0,7]^2 + random to 1e12 and beyond 2**53, judged against the integers given); O(n^2) reference vs find_overlapping_fragments and vs parsed stderr of asm-format --qc-overlaps",
         "Every predicate call made by the workloads is compared with closed-interval set semantics, mutual consistency is asserted per pair, and the scan / CLI report is compared pair-for-pair with a quadratic reference on random assemblies.",
         "Closed 1-based integer intervals; fragment occurrences identified by (scaffold,row).",
         "3-C19",
     ),
     "C20": (
         "exploration",
-        "contract (never raises, alternating str/int) on the real Assembly.name_natural_key for every key computed; permutation, numeric, nematode-numeral, unloc and rank laws on scaffolds_sorted_by_name / smart_sort_scaffolds over seeded name sets; CLI leg: monitor on pretext_to_asm.name_assemblies snapshots (rank, name) of every assembly handed to the writer and the object order of every written AGP file must be a concatenation of those sorted assemblies; every third case also without --output: the printed listing vs the assemblies handed to write_assembly",
+        "contract (never raises, alternating str/int) on the real Assembly.name_natural_key for every key computed; permutation, numeric, nematode-numeral, unloc and rank laws on scaffolds_sorted_by_name / smart_sort_scaffolds over seeded name sets (ranks 0-3, larger and negative); CLI leg: monitor on pretext_to_asm.name_assemblies snapshots (rank, name) of every assembly handed to the writer and the object order of every written AGP file must be a concatenation of those sorted assemblies; every third case also without --output: the printed listing vs the assemblies handed to write_assembly",
         "Seeded name sets (G-names incl. I/V/X runs, leading zeros, unloc suffixes) are sorted from several permutations; totality, permutation-invariance of the key sequence and the documented orderings are asserted on each.",
         "ASCII names < 60 chars; unloc law for chromosome names none of which is a digit-extended prefix of another; an all_haplotigs file is several sorted assemblies one after another.",
         "3-C20",
